@@ -68,7 +68,7 @@ M = [
     ("c20-shortest-rule", "forcefield_helper.py", "                if len(match_rule) > len(final_match):", "                if len(match_rule) < len(final_match):", ["C20"]),
     ("c20-no-completeness", "forcefield_helper.py", "        if len(final_dict) != mol.GetNumAtoms():\n            raise FfAssignmentError(final_dict)\n", "", ["C20"]),
     ("c20-no-refusal", "mol_gen.py", "        if not self.fully_generated:\n            raise RuntimeError(\n                \"Forcefield assignment is only possible for fully generated molecules\"\n            )\n", "", ["C20"]),
-    ("c15-accept-unbalanced", "token.py", '        if big_smiles_ext.count("(") != big_smiles_ext.count(")"):', '        if False:', []),
+    ("c15-accept-unbalanced", "token.py", '        if big_smiles_ext.count("(") != big_smiles_ext.count(")"):', '        if False:', ["C15"]),  # 'C)' is accepted with it (replayed on the plain package): a violation, not an equivalent change
     ("c15-no-two-atom-check", "token.py", '                                if "." not in elementB:\n                                    raise RuntimeError(', '                                if False:\n                                    raise RuntimeError(', ["C15"]),
     ("c15-unknown-dist-default", "distribution.py", '    raise RuntimeError(f"Unknown distribution type {distribution_text}.")', '    return Gauss("gauss(100, 10)")', ["C15"]),
     ("c15-no-translen-check", "stochastic.py", "            if bd.transitions is not None and len(bd.transitions) != len(self.bond_descriptors):", "            if False:", ["C15"]),
@@ -93,7 +93,7 @@ M = [
     ("c10-global-rng-draw", "stochastic.py", "            target_mol_weight = self.distribution.draw_mw(rng)", "            target_mol_weight = self.distribution.draw_mw()", ["C09"]),
     ("c09-uniform-scale", "distribution.py", "stats.uniform(loc=self._low, scale=(self._high - self._low))", "stats.uniform(loc=self._low, scale=self._high)", ["C09"]),
     ("c09-schulz-z", "distribution.py", "        self._z = self._Mn / (self._Mw - self._Mn)", "        self._z = self._Mw / (self._Mw - self._Mn)", ["C09"]),
-    ("c09-dispatch-order", "distribution.py", '    if "gauss" in distribution_text:\n        return Gauss(distribution_text)\n    if "uniform" in distribution_text:\n        return Uniform(distribution_text)', '    if "uniform" in distribution_text:\n        return Gauss(distribution_text.replace("uniform", "gauss"))\n    if "gauss" in distribution_text:\n        return Gauss(distribution_text)', ["C09", "C02", "C01"]),
+    ("c09-dispatch-order", "distribution.py", '    if "gauss" in distribution_text:\n        return Gauss(distribution_text)\n    if "uniform" in distribution_text:\n        return Uniform(distribution_text)', '    if "uniform" in distribution_text:\n        return Gauss(distribution_text.replace("uniform", "gauss"))\n    if "gauss" in distribution_text:\n        return Gauss(distribution_text)', ["C09", "C02"]),  # the round trip of C01 stays self-consistent (a Gauss object prints and re-parses as gauss)
     ("c17-partner-own-weight", "stochastic_atom_graph.py", "                                stochastic_weight=other_bd.weight,", "                                stochastic_weight=graph_bd.weight,", ["C17"]),
     ("c17-offset-bug", "stochastic_atom_graph.py", "                        second_atom = other_bd.atom_bonding_to + nested_offset[other_bd_token_idx]\n\n                        if other_bd_token_idx", "                        second_atom = other_bd.atom_bonding_to + nested_offset[graph_bd_token_idx]\n\n                        if other_bd_token_idx", ["C17"]),
     ("c17-end-group-leaves", "stochastic_atom_graph.py", "            if graph_bd_token_idx >= len(element.repeat_tokens):\n                continue\n", "", ["C17"]),
